@@ -3,6 +3,8 @@ package main
 // accept.go — A4: accept-loop shape (DESIGN.md §3), used by C02, C14, C15.
 
 import (
+	"os"
+	"strings"
 	"go/token"
 	"fmt"
 	"go/types"
@@ -501,4 +503,196 @@ func ruleAcceptErrorSpin(w *World, r *Report, rule string) {
 		}
 		r.Check(spin == "", rule, key, pos, fmt.Sprintf("all %d cyclic path(s) through the accept either succeeded or pass a return / back-off", paths), spin, "cyclic_paths", paths)
 	}
+}
+
+// ruleHandlersKeepStateLocal: the functions started with `go` inside an accept loop run once per accepted
+// connection, concurrently, on ONE receiver object (the listener, the session handler). Anything such a
+// function — or a helper it calls on the same receiver — stores into a field of that object is shared by all
+// of them: the newest connection's value overwrites the others', and whoever reads the field back (to close
+// "its" stream, to write "its" answer) acts on a sibling's resource.
+func ruleHandlersKeepStateLocal(w *World, r *Report, rule string) {
+	n := 0
+	for _, al := range findAcceptLoops(w) {
+		fns := []*ssa.Function{al.Fn}
+		inLoop := []func(b *ssa.BasicBlock) bool{func(b *ssa.BasicBlock) bool { return al.Loop[b] }}
+		if al.Outer != nil {
+			fns = append(fns, al.Outer)
+			inLoop = append(inLoop, func(b *ssa.BasicBlock) bool { return al.OuterLoop[b] })
+		}
+		for k, fn := range fns {
+			for _, c := range callsIn(fn) {
+				g, isGo := c.(*ssa.Go)
+				if !isGo || !inLoop[k](g.Block()) {
+					continue
+				}
+				target := g.Call.StaticCallee()
+				var recvArg ssa.Value
+				if target != nil && target.Signature.Recv() != nil && len(g.Call.Args) > 0 {
+					recvArg = g.Call.Args[0]
+				} else if mc, ok := g.Call.Value.(*ssa.MakeClosure); ok {
+					// go func() { l.handle(conn) }(): the handler is what the closure calls on a captured receiver
+					cl := mc.Fn.(*ssa.Function)
+					for _, c2 := range callsIn(cl) {
+						if sc := c2.Common().StaticCallee(); sc != nil && sc.Signature.Recv() != nil && inModule(sc) && len(c2.Common().Args) > 0 {
+							if fv, ok := c2.Common().Args[0].(*ssa.FreeVar); ok {
+								target = sc
+								for i, f2 := range cl.FreeVars {
+									if f2 == fv && i < len(mc.Bindings) {
+										recvArg = mc.Bindings[i]
+									}
+								}
+							} else if u, ok := c2.Common().Args[0].(*ssa.UnOp); ok {
+								if fv, ok := u.X.(*ssa.FreeVar); ok {
+									target = sc
+									for i, f2 := range cl.FreeVars {
+										if f2 == fv && i < len(mc.Bindings) {
+											recvArg = mc.Bindings[i]
+										}
+									}
+								}
+							}
+						}
+					}
+				}
+				if mc, ok := g.Call.Value.(*ssa.MakeClosure); ok && recvArg == nil {
+					cl := mc.Fn.(*ssa.Function)
+					n++
+					key := fmt.Sprintf("go:%s@%s", ssaFuncKey(cl), ssaFuncKey(fn))
+					bad := ""
+					allInstrs(cl, func(in ssa.Instruction) {
+						st, ok := in.(*ssa.Store)
+						if !ok || bad != "" {
+							return
+						}
+						v := st.Addr
+						var names []string
+						for {
+							fa, ok := v.(*ssa.FieldAddr)
+							if !ok {
+								break
+							}
+							if fv := fieldVarOf(fa); fv != nil {
+								names = append([]string{fv.Name()}, names...)
+							}
+							v = fa.X
+						}
+						if u, ok := v.(*ssa.UnOp); ok {
+							v = u.X
+						}
+						fv, ok := v.(*ssa.FreeVar)
+						if !ok || len(names) == 0 {
+							return
+						}
+						// bound to something that exists once for all iterations?
+						for i, f2 := range cl.FreeVars {
+							if f2 != fv || i >= len(mc.Bindings) {
+								continue
+							}
+							b := mc.Bindings[i]
+							if bi, ok := b.(ssa.Instruction); ok && bi.Parent() == fn && inLoop[k](bi.Block()) {
+								return
+							}
+							if _, isC := st.Val.(*ssa.Const); isC {
+								if lr := lockRegionAny(cl); lr[in] {
+									return
+								}
+							}
+							bad = fmt.Sprintf("%s: the per-connection goroutine stores into field %s of an object captured from outside the accept loop: shared by all connection goroutines", w.Pos(st.Pos()), strings.Join(names, "."))
+						}
+					})
+					r.Check(bad == "", rule, key, w.Pos(g.Pos()), "the per-connection closure stores into no field of an object shared by all of them", bad)
+					continue
+				}
+				if os.Getenv("SA_DEBUG") != "" {
+					fmt.Fprintf(os.Stderr, "R02.8 dbg: go at %s target=%v recv=%v\n", w.Pos(g.Pos()), target, recvArg)
+				}
+				if target == nil || recvArg == nil || !inModule(target) || len(target.Blocks) == 0 {
+					continue
+				}
+				// the receiver must be the same object for every iteration: not defined inside the loop
+				for {
+					fa, ok := recvArg.(*ssa.FieldAddr)
+					if !ok {
+						break
+					}
+					recvArg = fa.X // the embedded struct's address: same object
+				}
+				if in, ok := recvArg.(ssa.Instruction); ok && in.Parent() == fn && inLoop[k](in.Block()) {
+					if _, isAlloc := recvArg.(*ssa.Alloc); !isAlloc {
+						// a load inside the loop of something defined outside is still shared; anything built per iteration is not
+						shared := false
+						for _, root := range provenance(recvArg, provOpts{}) {
+							if ri, ok := root.(ssa.Instruction); !ok || ri.Parent() != fn || !inLoop[k](ri.Block()) {
+								shared = true
+							}
+						}
+						if !shared {
+							continue
+						}
+					} else {
+						continue
+					}
+				}
+				n++
+				key := fmt.Sprintf("go:%s@%s", ssaFuncKey(target), ssaFuncKey(fn))
+				bad := ""
+				seen := map[*ssa.Function]bool{}
+				var walk func(f *ssa.Function, d int, via string)
+				walk = func(f *ssa.Function, d int, via string) {
+					if f == nil || seen[f] || d > 2 || len(f.Blocks) == 0 || len(f.Params) == 0 {
+						return
+					}
+					seen[f] = true
+					recv := f.Params[0]
+					allInstrs(f, func(in ssa.Instruction) {
+						st, ok := in.(*ssa.Store)
+						if !ok || bad != "" {
+							return
+						}
+						// a field of the receiver object itself (embedded structs by value included; no pointer hop)
+						v := st.Addr
+						var names []string
+						for {
+							fa, ok := v.(*ssa.FieldAddr)
+							if !ok {
+								break
+							}
+							if fv := fieldVarOf(fa); fv != nil {
+								names = append([]string{fv.Name()}, names...)
+							}
+							v = fa.X
+						}
+						if v != ssa.Value(recv) || len(names) == 0 {
+							return
+						}
+						if _, isC := st.Val.(*ssa.Const); isC {
+							if lr := lockRegionAny(f); lr[in] {
+								return // a flag or a reset under a lock
+							}
+						}
+						bad = fmt.Sprintf("%s: %s%s stores into field %s of the object shared by all connection goroutines: the value of the newest connection replaces every sibling's, and code that reads it back acts on another connection's resource", w.Pos(st.Pos()), via, ssaFuncKey(f), strings.Join(names, "."))
+					})
+					for _, c2 := range callsIn(f) {
+						if _, isGo2 := c2.(*ssa.Go); isGo2 {
+							continue
+						}
+						if sc := c2.Common().StaticCallee(); sc != nil && inModule(sc) && sc.Signature.Recv() != nil && len(c2.Common().Args) > 0 && c2.Common().Args[0] == ssa.Value(recv) {
+							walk(sc, d+1, via+ssaFuncKey(f)+" -> ")
+						}
+					}
+				}
+				walk(target, 0, "")
+				r.Check(bad == "", rule, key, w.Pos(g.Pos()), "neither the per-connection goroutine nor the helpers it calls on its receiver store into the shared object's fields", bad)
+			}
+		}
+	}
+	if n == 0 {
+		r.Undecided(rule, "go:handlers", "-", "no per-connection goroutine found in an accept loop")
+	}
+}
+
+// lockRegionAny: instructions of fn executed while any sync mutex is held.
+func lockRegionAny(fn *ssa.Function) map[ssa.Instruction]bool {
+	region, _ := lockRegion(fn, func(v ssa.Value) bool { return true })
+	return region
 }
